@@ -95,11 +95,38 @@ def variation_cov(ph):
              "correspondence_mismatches": len(ph["corr"]), "oracle_failures": len(ph["orac"])} if ph else None)
 
 
-def run_rep(prop, run_fn, regions, trusted, rule, tier, seed, replay, extra=None):
+def stack_phase(chk, prop, ecs, eos, cases=()):
+    """the stack machine's mapping against its model (coq/Model/Stack.v: stack_map): every observed mapping of a stack genotype is
+    re-run in the model on the same codons.  Returns (mappings compared, of which the model gave a definite answer)."""
+    sm = [(c, o) for c, o in zip(ecs, eos) if c["rep"]["kind"] == "stack" and c["op"] == "map" and '"exc": "NotRun"' not in json.dumps(o, default=str)]
+    if not sm:
+        return 0, 0
+    sterms = [rc.to_coq(c, o) for c, o in sm]
+    bad, indefinite = core.run_cases(prop, rc.IMPORTS, sterms, run_fn="run_stack", chunk=80)
+    if bad:
+        full = {(k.get("seed"), str(k["rep"])): k for k in cases}
+        # the machine's model answers within a few thousand steps and the implementation overflowed the interpreter's stack or did not
+        # return: a failing input of the implementation, not only a disagreement
+        rec = [j for j in bad if ((sm[j][1].get("rec", {}).get("res") or {}).get("exc")) in ("RecursionError", "Timeout")]
+        if rec:
+            c, o = sm[min(rec, key=lambda j: len(sterms[j]))]
+            chk.violation("oracle", f"[stack mapping] the mapping raises {o['rec']['res']['exc']} (not the library's own error) on {len(rec)} of {len(sm)} mappings for which the stack machine returns within "
+                          "6000 steps: " + rc.describe(c, o),
+                          {"component": "stack mapping", "driver": "reps", "case": c, "case_full": full.get((c.get("seed"), str(c["rep"]))), "observed": o, "failing": len(rec)}, True)
+        rest = [j for j in bad if j not in set(rec)]
+        if rest:
+            c, o = sm[min(rest, key=lambda j: len(sterms[j]))]
+            chk.violation("correspondence", f"the stack machine's model and the implementation's mapping disagree on {len(rest)} of {len(sm)} mappings; the property is no longer shown to hold there. Smallest: " + rc.describe(c, o),
+                          {"component": "stack mapping", "correspondence_no_longer_checks": "stack.map (coq/Model/Stack.v: stack_map)", "driver": "reps", "case": c,
+                           "case_full": full.get((c.get("seed"), str(c["rep"]))), "observed": o, "mismatches": len(rest)}, False)
+    return len(sm), len(sm) - len(indefinite)
+
+
+def run_rep(prop, run_fn, regions, trusted, rule, tier, seed, replay, extra=None, more_cases=None):
     chk = core.Check(prop, tier, seed)
     proof = core.proof_step(prop, thorough=(tier == "thorough"))
     r = flow.rng(seed, prop.lower())
-    cases = [replay["replay"]["case_full"]] if replay and "case_full" in replay["replay"] else rc.gen_cases(r, tier)
+    cases = [replay["replay"]["case_full"]] if replay and "case_full" in replay["replay"] else rc.gen_cases(r, tier) + (more_cases(flow.rng(seed, prop.lower() + "x"), tier) if more_cases else [])
     ph = rep_phase(chk, prop, run_fn, regions, cases)
     if ph is None:
         return chk.finish(proof, trusted, {"evaluations": 0, "distinct_nontrivial": 0}, rule)
